@@ -347,6 +347,27 @@ var texts = []string{" x", "x ", " x ", "x\n", "x\r\n", "\tx\t", "\n", " ", "/li
 var textNames = []string{"leading-space", "trailing-space", "spaces-around", "trailing-lf", "trailing-crlf", "tabs-around", "lone-lf", "lone-space", "leading-slash", "two-slashes", "lone-slash", "mixed-case", "inner-space-run",
 	"trailing-nul", "lone-nul", "inner-nul", "invalid-utf8", "section-sign-code", "non-ascii", "leading-bom", "quoted", "backslash", "nbsp-around", "trailing-line-separator", "digit"}
 
+// pairTexts: the texts above form the all-ordered-pairs family; the ones appended by init below (format verbs and every
+// single byte value between two letters) are each sent once as a command and once as a response.
+const pairTexts = 25
+
+func init() {
+	if len(texts) != pairTexts || len(textNames) != pairTexts {
+		panic("c16: text menu out of step")
+	}
+	for _, t := range [][2]string{{"%", "percent"}, {"say 100% done", "percent-inside"}, {"%d", "verb-d"}, {"%s%s", "verb-s-s"}, {"%%", "percent-percent"},
+		{"%!d(MISSING)", "missing-marker"}, {"%v %[1]d %*d", "verb-indexed"}, {"%x", "verb-x"}, {"$1 ${a} `b`", "shell-marks"}, {"{0} {} {{", "braces"}} {
+		texts = append(texts, t[0])
+		textNames = append(textNames, t[1])
+	}
+	for b := 0; b < 256; b++ {
+		texts = append(texts, "x"+string([]byte{byte(b)})+"y")
+		textNames = append(textNames, fmt.Sprintf("byte-%02x", b))
+	}
+	commands = append(commands, texts[pairTexts:]...)
+	responses = append(responses, texts[pairTexts:]...)
+}
+
 var commands = append([]string{"", "x", "list all", string(payload("ascii", refrcon.MaxPayload))}, texts...)
 var responses = append([]string{"", "ok", "with\x00nul\xff", string(payload("nonutf8", refrcon.MaxPayload))}, texts...)
 
@@ -1813,8 +1834,15 @@ func main() {
 	// ---- verbatim: every ordered pair of menu texts as a two-step script (text i as command then as response,
 	// text j the other way round), so each text also follows and precedes every other on one connection
 	nVerbatim := 0
-	for i := range texts {
-		for j := range texts {
+	for i := pairTexts; i < len(texts); i++ {
+		// the single texts: as command with the next one as response, and the other way round
+		j := pairTexts + (i-pairTexts+1)%(len(texts)-pairTexts)
+		cases = append(cases, Case{Part: "script-mem", ReqID: 7, Cmds: []int{histCmds + i}, Resps: []int{histResps + j}},
+			Case{Part: "script-mem", ReqID: 7, Cmds: []int{histCmds + j, histCmds + i}, Resps: []int{histResps + i, histResps + j}, Chunk: 3})
+		nVerbatim += 2
+	}
+	for i := range texts[:pairTexts] {
+		for j := range texts[:pairTexts] {
 			ci, cj := histCmds+i, histCmds+j
 			ri, rj := histResps+i, histResps+j
 			cases = append(cases, Case{Part: "script-mem", ReqID: 7, Cmds: []int{ci, cj}, Resps: []int{rj, ri}})
@@ -1924,8 +1952,8 @@ func main() {
 		nScriptTCP++
 	})
 	// every menu text as the command and as the response of a one-step session after a real login
-	for i := range texts {
-		tcp = append(tcp, Case{Part: "script-tcp", ClientPw: 3, ServerPw: 3, Cmds: []int{histCmds + i}, Resps: []int{histResps + (i+1)%len(texts)}})
+	for i := range texts[:pairTexts] {
+		tcp = append(tcp, Case{Part: "script-tcp", ClientPw: 3, ServerPw: 3, Cmds: []int{histCmds + i}, Resps: []int{histResps + (i+1)%pairTexts}})
 		nScriptTCP++
 	}
 	// long passwords through the real DialRCON
